@@ -6,6 +6,7 @@ import (
 	"encoding/binary"
 	"fmt"
 	"math/rand"
+	"os"
 	"sort"
 	"strconv"
 	"strings"
@@ -485,10 +486,21 @@ func fragOracle(r *rand.Rand, n int, tier string, infile string) (cases int, fai
 			}
 			continue
 		}
+		// restart mode: the three senders are successive incarnations of ONE source (a node that restarted: its message
+		// ids start again), so different messages share source and id
+		// Exploration only (FRAG_RESTART=1), not part of the registered oracle: C10 quantifies over the genuine fragments
+		// of concurrent messages, whose (source, id) pairs differ. A fragswarm sender that restarts re-uses ids 0, 1, …
+		// (there is no incarnation number), and with a partial message of the old incarnation still held (clean-up
+		// runs once a minute) the receiver does combine fragments of the two: see DESIGN.md section 6.
+		restart := kind == "frag" && os.Getenv("FRAG_RESTART") != "" && r.Intn(4) == 0
 		told, toldSrc, sched, delivered := fragScenario(r, kind, true, func(op string) string {
 			cases++
-			hist = append(hist, op)
 			f := strings.Fields(op)
+			if restart && strings.HasSuffix(f[0], "-recv") {
+				f[1] = "0"
+				op = strings.Join(f, " ")
+			}
+			hist = append(hist, op)
 			st.apply(f, o)
 			res := o.Last()
 			if res == "fault" {
@@ -522,7 +534,7 @@ func fragOracle(r *rand.Rand, n int, tier string, infile string) (cases int, fai
 			payload := strings.TrimPrefix(strings.TrimPrefix(d, "deliver "), "tell ")
 			ok := false
 			for j := range told {
-				if toldSrc[j] == p.src && hx.Hex(told[j]) == payload {
+				if (restart || toldSrc[j] == p.src) && hx.Hex(told[j]) == payload {
 					ok = true
 				}
 			}
